@@ -1,6 +1,6 @@
 SPECIFICATION Spec
 CONSTANTS
-  HolderKinds = {"global", "local", "closure-global", "closure-local", "argtemp", "handler-cweh", "handler-with", "wind-after", "continuation", "container-list", "container-hash", "container-vector", "param", "thread-stack", "thread-tls", "tls", "host-rooted", "struct-field", "closure-in-box"}
+  HolderKinds = {"global", "local", "closure-global", "closure-local", "argtemp", "handler-cweh", "handler-with", "wind-after", "continuation", "container-list", "container-hash", "container-vector", "container-pair", "container-hashset", "container-hash-key", "container-mvector", "container-mstruct", "container-nested", "closure-captures-closure", "param", "thread-stack", "thread-tls", "tls", "host-rooted", "struct-field", "closure-in-box"}
   ObjKinds = {"box", "mvector", "mstruct", "setvar"}
   NestKinds = {"direct", "inner", "cycle"}
   MaxEvents = 3
